@@ -5,6 +5,7 @@ static int transport, script, victim_is_server, kmax, jmax;
 static int in_disconnect, died_during_disconnect;   /* the server died while the client was already inside qb_ipcc_disconnect: the statement
                                                         speaks of a server that is dead when disconnect is called; what a server that was alive
                                                         at the call's liveness test leaves behind is nobody's to remove -- not judged */
+static int eintr;
 static long J;          /* mode 3: the client dies just before the server's J-th wrapped call after the session began */
 static long K;
 enum { ST_NONE, ST_ACCEPTED, ST_CREATED, ST_CLOSED, ST_DESTROYED };
@@ -253,6 +254,7 @@ static void director_sd_main(void *arg)
 	/* the server dies at an iteration boundary from now on (K counts its wrapped calls after the connect) */
 	W_kill_at[W_server_co] = W_calls[W_server_co] + K;
 	mk_req(vb, 40, 100); iov.iov_base = vb; iov.iov_len = 100;
+	W_eintr_budget = eintr;
 	t0 = W_now;
 	if (phase == 0) {
 		r = qb_ipcc_sendv_recv(VIC, &iov, 1, vb, sizeof vb, -1);
@@ -312,12 +314,12 @@ static void run(void)
 	mode = vp_choose(5, "who dies");       /* 0 client, 1 server during a session, 2 server while a call is waiting, 3 client at a moment of the server's execution, 4 server at a moment of the client's */
 	victim_is_server = mode == 1 || mode == 2 || mode == 4;
 	silent_server = mode == 2;
-	J = 0;
+	J = 0; eintr = 0;
 	if (mode == 0) { script = vp_choose(5, "session script"); if (script == 4) { raw_bytes = vp_choose(17 + 1, "handshake bytes delivered"); K = 1000; } else K = 1 + vp_choose(kmax, "dies before wrapped call"); }
 	else if (mode == 1) { script = vp_choose(4, "session script"); K = 1 + vp_choose(kmax, "server dies before wrapped call"); }
 	else if (mode == 3) { script = vp_choose(4, "session script"); K = 0; J = 1 + vp_choose(jmax, "client dies just before the server's wrapped call"); }
 	else if (mode == 4) { script = vp_choose(4, "session script"); K = 0; J = 1 + vp_choose(kmax, "server dies just before the client's wrapped call"); }
-	else { script = vp_choose(3, "call in progress"); K = 1 + vp_choose(40, "server dies before wrapped call (after connect)"); }
+	else { script = vp_choose(3, "call in progress"); K = 1 + vp_choose(40, "server dies before wrapped call (after connect)"); eintr = vp_choose(2, "a handled signal interrupts the waiting call once"); }
 	vp_log("transport %s, %s dies, script %d, K=%ld J=%ld", transport ? "socket" : "shm", victim_is_server ? "server" : "client", script, K, J);
 	world_start(transport ? QB_IPC_SOCKET : QB_IPC_SHM, &h, 0);
 	W_server_turn = server_turn;
